@@ -14,9 +14,12 @@ from props.c01 import mutate, fresh_keys
 from kernels_tie import optional_eq as optional_obligation  # noqa: F401  (`_eq_fn` regenerated from node.py: optional bridge)
 
 PROPERTY = "C02"
-LEAN_MODULE = "PyOak.Props.C02"
+LEAN_MODULE = "PyOak.Props.C02All"
 THEOREMS = ["PyOak.C02." + t for t in ["eq_total", "eq_iff", "eq_refl", "eq_symm", "eq_trans", "ne_eq_not",
                                        "eq_other_class", "aligned", "keys_agree"]]
+# additions (AUDIT item #6): the equivalence laws without any hypothesis (any digest, any trees)
+THEOREMS += ["PyOak.C02." + t for t in ["eq_comm", "ne_comm", "eq_symm_any", "eq_trans_any", "eq_equivalence",
+                                        "eq_of_nodeEq", "zipOrigins_comm", "zipOrigins_trans"]]
 RULE = ("pairs/triples of zoo trees: copies whose origin differs at exactly one position (root, child, grandchild, "
         "deeper; inside tuples and single fields; no-origin, code, generated and multi origins), content mutants, "
         "content-equal twins; non-trivial = tree >= 3 nodes; distinct by both descriptions")
